@@ -2,7 +2,8 @@
 C17 — model of pybtex's entry-point plumbing (core Lean only).
 
   §1  `pybtex/io.py`            `_open_existing`, `_open_or_create`, `_open`, `open_raw`, `open_unicode`
-                                over an abstract opener, `posixpath.isfile`, `kpsewhich`, `os.environ`
+                                over an abstract opener, `posixpath.isfile`, `os.environ`, and
+      `pybtex/kpathsea.py`      `kpsewhich` over an abstract process runner (`Popen` + `communicate`)
   §2  `pybtex/plugin/__init__.py`  `_load_entry_point`, `find_plugin`, `register_plugin`,
                                 `enumerate_plugin_names`, `PluginNotFound` / `PluginGroupNotFound` messages,
                                 over the installed entry-point table (a parameter; the regenerated
@@ -13,12 +14,15 @@ C17 — model of pybtex's entry-point plumbing (core Lean only).
   §5  `pybtex/database/__init__.py`  the module-level functions and `BibliographyData.to_*`
 
 What is abstract (a parameter, never computed here): the codec (`enc`, `dec`), the plug-in's own
-parsing / printing core, ElementTree, the opener, the bytes a handle yields, `kpsewhich`, the environment.
+parsing / printing core, the opener, the bytes a handle yields, the `kpsewhich` PROGRAM (what running it
+returns: cannot be started / return code + standard output), the environment.
 Every function that opens files also returns the list of `Event`s it caused, in order, so that "a second
 attempt at the joined path" is a statement about a value.
 
 The model follows the code WITH the proposed fixes C17-1 (plugin), C17-2 (YAML plug-ins become plain
-`unicode_io` plug-ins: nothing to model beyond §3/§4), C17-3 (BibTeXML `parse_string`).
+`unicode_io` plug-ins: nothing to model beyond §3/§4), C17-3 (BibTeXML `parse_string`) and C17-4 (the
+BibTeXML reader is a `unicode_io` reader wired like the BibTeX one: `parse_string` is the text core,
+`parse_stream` reads the stream and calls it; BaseParser decodes bytes and files with `self.encoding`).
 -/
 import PybtexModel.Model.Basic
 import PybtexModel.Model.PyDict
@@ -75,53 +79,80 @@ deriving DecidableEq, Repr
 def OpenErr.message (e : OpenErr) : Str :=
   "unable to open ".toList ++ e.filename ++ ". ".toList ++ e.strerror
 
-/-- What the functions of `pybtex.io` did to the outside world, in order. -/
-inductive Event
-  | locate (p : Path)                                       -- kpsewhich(p)
-  | tryOpen (p : Path) (mode : Str) (encoding : Option Str) -- opener(p, mode[, encoding=…])
+/-- What `io.open` is handed as the file: a `str`, or the `bytes` object that `kpsewhich` returned
+(what the program printed; `io.open` accepts both). -/
+inductive PathArg
+  | str (p : Path)
+  | bytes (b : Bytes)
 deriving DecidableEq, Repr
 
-/-- The outside world of `pybtex.io`. `H` is whatever the opener returns. -/
+instance : Coe Path PathArg := ⟨.str⟩
+
+/-- What the functions of `pybtex.io` did to the outside world, in order. -/
+inductive Event
+  | locate (p : Path)                                          -- Popen(['kpsewhich', p], …)
+  | tryOpen (p : PathArg) (mode : Str) (encoding : Option Str) -- opener(p, mode[, encoding=…])
+deriving DecidableEq, Repr
+
+/-- The outside world of `pybtex.io` / `pybtex.kpathsea`. `H` is whatever the opener returns. -/
 structure Env (H : Type) where
   /-- `io.open(path, mode)` / `io.open(path, mode, encoding=e)` -/
-  opener : Path → Str → Option Str → Except IOErr H
+  opener : PathArg → Str → Option Str → Except IOErr H
   /-- `posixpath.isfile` -/
   isFile : Path → Bool
-  /-- `kpsewhich`: `none` = not found (`None`); running the program can itself raise `OSError` -/
-  locate : Path → Except IOErr (Option Path)
+  /-- `p = Popen(['kpsewhich', filename], stdout=PIPE, stderr=PIPE); p.communicate()`:
+  `.error` = the program could not be started (`OSError`: not installed, not executable …), otherwise
+  its return code and everything it wrote to standard output -/
+  runKpsewhich : Path → Except IOErr (Int × Bytes)
   /-- `os.environ` -/
   environ : List (Str × Str)
 
 variable {H S : Type}
 
-/-- `_open_existing(opener, filename, mode, locate, **kwargs)`. -/
+/-- The bytes `bytes.rstrip()` removes: ASCII white space (`b' \t\n\r\x0b\x0c'`). -/
+def isAsciiWsByte (x : UInt8) : Bool := x == 32 || (9 ≤ x && x ≤ 13)
+
+/-- `bytes.rstrip()`. -/
+def rstripBytes (b : Bytes) : Bytes := (b.reverse.dropWhile isAsciiWsByte).reverse
+
+/-- `pybtex.kpathsea.kpsewhich(filename)`: `path = p.communicate()[0].rstrip()`;
+`if p.returncode == 0: return path` (else `None`).  The result is a `bytes` object. -/
+def kpsewhich (env : Env H) (filename : Path) : Except IOErr (Option Bytes) :=
+  match env.runKpsewhich filename with
+  | .error e => .error e                            -- Popen raised
+  | .ok (returncode, out) =>
+    let path := rstripBytes out
+    if returncode = 0 then .ok (some path) else .ok none
+
+/-- `_open_existing(opener, filename, mode, locate, **kwargs)` with `locate=kpsewhich`. -/
 def openExisting (env : Env H) (filename : Path) (mode : Str) (kw : Option Str) :
     List Event × Except IOErr H :=
   if env.isFile filename then
-    ([.tryOpen filename mode kw], env.opener filename mode kw)
+    ([.tryOpen (.str filename) mode kw], env.opener (.str filename) mode kw)
   else
-    match env.locate filename with
+    match kpsewhich env filename with
     | .error e => ([.locate filename], .error e)
     | .ok found =>
-      -- `if found: filename = found`  (None and the empty path are both false)
-      let target := match found with
-        | some q => if q.isEmpty then filename else q
-        | none => filename
+      -- `if found: filename = found`  (None and the empty bytes object are both false)
+      let target : PathArg := match found with
+        | some q => if q.isEmpty then .str filename else .bytes q
+        | none => .str filename
       ([.locate filename, .tryOpen target mode kw], env.opener target mode kw)
 
 /-- `_open_or_create(opener, filename, mode, environ, **kwargs)`. -/
 def openOrCreate (env : Env H) (filename : Path) (mode : Str) (kw : Option Str) :
     List Event × Except IOErr H :=
-  match env.opener filename mode kw with
-  | .ok h => ([.tryOpen filename mode kw], .ok h)
+  match env.opener (.str filename) mode kw with
+  | .ok h => ([.tryOpen (.str filename) mode kw], .ok h)
   | .error error =>
     match dget env.environ "TEXMFOUTPUT".toList with
     | some dir =>
       let newFilename := posixJoin dir filename
-      match env.opener newFilename mode kw with
-      | .ok h => ([.tryOpen filename mode kw, .tryOpen newFilename mode kw], .ok h)
-      | .error _ => ([.tryOpen filename mode kw, .tryOpen newFilename mode kw], .error error)  -- `raise error`
-    | none => ([.tryOpen filename mode kw], .error error)
+      match env.opener (.str newFilename) mode kw with
+      | .ok h => ([.tryOpen (.str filename) mode kw, .tryOpen (.str newFilename) mode kw], .ok h)
+      | .error _ =>
+        ([.tryOpen (.str filename) mode kw, .tryOpen (.str newFilename) mode kw], .error error)  -- `raise error`
+    | none => ([.tryOpen (.str filename) mode kw], .error error)
 
 /-- The `filename_or_file` argument: a name, or an object that has `read` and `close`. -/
 inductive FileArg (S : Type)
@@ -316,35 +347,25 @@ deriving DecidableEq, Repr
 inductive ReaderKind
   | base (unicodeIO : Bool)   -- overrides `parse_stream` only (YAML after fix C17-2, third-party plug-ins)
   | bibtex                    -- `unicode_io = True`; `parse_string` is the text core, `parse_stream` reads and calls it
-  | bibtexml                  -- `unicode_io = False`; `parse_bytes`, `parse_string`, `parse_stream` go to ElementTree
+                              -- (the BibTeX reader, and the BibTeXML reader after fix C17-4)
 deriving DecidableEq, Repr
 
 def ReaderKind.unicodeIO : ReaderKind → Bool
   | .base u => u
   | .bibtex => true
-  | .bibtexml => false
 
 /-- `readerKindOf unicode_io overridden_methods` (methods sorted by name). -/
 def readerKindOf (u : Bool) (ov : List Str) : Option ReaderKind :=
   if ov = ["parse_stream".toList] then some (.base u)
   else if u && ov = ["parse_stream".toList, "parse_string".toList] then some .bibtex
-  else if !u && ov = ["parse_bytes".toList, "parse_stream".toList, "parse_string".toList] then some .bibtexml
   else none
 
 /-- The plug-in's own code, abstract.  `Db` is `self.data` (state passing), `E` what the core may raise. -/
-structure ReaderCore (Db E Tree : Type) where
+structure ReaderCore (Db E : Type) where
   /-- `.base`: the plug-in's `parse_stream(stream)` -/
   parseStream : Db → Stream → Except E Db
-  /-- `.bibtex`: `Parser.parse_string(text)` -/
+  /-- `.bibtex`: the class's own `parse_string(text)` (the BibTeX grammar; `ET.fromstring` + `parse_tree`) -/
   parseText : Db → Str → Except E Db
-  /-- `.bibtexml`: `ET.fromstring(bytes)` / `ET.parse(binary stream)` — the document says how it is encoded -/
-  fromBytes : Bytes → Except E Tree
-  /-- `.bibtexml`: `ET.fromstring(str)` -/
-  fromStr : Str → Except E Tree
-  /-- `.bibtexml`: `ET.parse(text stream)` -/
-  fromTextStream : Str → Except E Tree
-  /-- `.bibtexml`: `parse_tree(tree)` -/
-  parseTree : Db → Tree → Except E Db
 
 inductive RErr (E : Type)
   | open (e : OpenErr)                          -- PybtexError from pybtex.io
@@ -354,7 +375,7 @@ inductive RErr (E : Type)
   | core (e : E)                                -- whatever the plug-in's own code raised
 deriving DecidableEq, Repr
 
-variable {Db E Tree : Type}
+variable {Db E : Type}
 
 def liftCore (r : Except E Db) : Except (RErr E) Db :=
   match r with
@@ -362,20 +383,16 @@ def liftCore (r : Except E Db) : Except (RErr E) Db :=
   | .error e => .error (.core e)
 
 /-- `self.parse_stream(stream)` (virtual). -/
-def parseStream (k : ReaderKind) (core : ReaderCore Db E Tree) (data : Db) (st : Stream) : Except (RErr E) Db :=
+def parseStream (k : ReaderKind) (core : ReaderCore Db E) (data : Db) (st : Stream) : Except (RErr E) Db :=
   match k with
   | .base _ => liftCore (core.parseStream data st)
   | .bibtex =>                                       -- text = stream.read(); return self.parse_string(text)
     match st with
     | .text s => liftCore (core.parseText data s)
     | .binary _ => .error .wrongStream
-  | .bibtexml =>                                     -- tree = ET.parse(stream); return self.parse_tree(tree)
-    match st with
-    | .binary b => liftCore (core.fromBytes b >>= core.parseTree data)
-    | .text s => liftCore (core.fromTextStream s >>= core.parseTree data)
 
 /-- `self.parse_string(value)` (virtual). -/
-def parseString (k : ReaderKind) (core : ReaderCore Db E Tree) (c : Codec) (data : Db) (value : Str) :
+def parseString (k : ReaderKind) (core : ReaderCore Db E) (c : Codec) (data : Db) (value : Str) :
     Except (RErr E) Db :=
   match k with
   | .base u =>
@@ -384,34 +401,39 @@ def parseString (k : ReaderKind) (core : ReaderCore Db E Tree) (c : Codec) (data
       -- self.parse_bytes(value.encode(self.encoding)), where unicode_io is False: io.BytesIO(…)
       parseStream k core data (.binary (c.enc value))
   | .bibtex => liftCore (core.parseText data value)
-  | .bibtexml => liftCore (core.fromStr value >>= core.parseTree data)  -- fix C17-3 (was parse_bytes(value.encode(…)))
 
-/-- `self.parse_bytes(value)` (virtual). -/
-def parseBytes (k : ReaderKind) (core : ReaderCore Db E Tree) (c : Codec) (data : Db) (value : Bytes) :
+/-- `BaseParser.parse_bytes(value)` (no installed class overrides it once C17-4 is applied). -/
+def parseBytes (k : ReaderKind) (core : ReaderCore Db E) (c : Codec) (data : Db) (value : Bytes) :
     Except (RErr E) Db :=
-  match k with
-  | .bibtexml => liftCore (core.fromBytes value >>= core.parseTree data)
-  | _ =>                                             -- BaseParser.parse_bytes
-    if k.unicodeIO then
-      match c.dec value with
-      | .error m => .error (.unicodeDecode m)
-      | .ok s => parseString k core c data s
-    else parseStream k core data (.binary value)     -- io.BytesIO(value)
+  if k.unicodeIO then
+    match c.dec value with
+    | .error m => .error (.unicodeDecode m)
+    | .ok s => parseString k core c data s
+  else parseStream k core data (.binary value)     -- io.BytesIO(value)
+
+/-- Universal newlines, what a text-mode file opened for reading with the default `newline=None` does to
+the decoded text: `\r\n` and a lone `\r` become `\n`. -/
+def univNl : Str → Str
+  | [] => []
+  | '\r' :: '\n' :: r => '\n' :: univNl r
+  | '\r' :: r => '\n' :: univNl r
+  | c :: r => c :: univNl r
 
 /-- What the plug-in sees when it reads from what `open_unicode` / `open_raw` returned.
 `content h` are the bytes of the file behind handle `h`; a text-mode handle decodes them (a failure
-surfaces as `UnicodeDecodeError` inside `parse_stream`). -/
+surfaces as `UnicodeDecodeError` inside `parse_stream`) and translates newlines (`univNl`).  The caller's
+own file-like object is read as it is. -/
 def readOpened (u : Bool) (c : Codec) (content : H → Bytes) : Opened H Stream → Except Str Stream
   | .passthrough st => .ok st
   | .handle h =>
     if u then
       match c.dec (content h) with
-      | .ok s => .ok (.text s)
+      | .ok s => .ok (.text (univNl s))
       | .error m => .error m
     else .ok (.binary (content h))
 
 /-- `BaseParser.parse_file(filename, file_suffix=None)`; `encName` is `self.encoding`. -/
-def parseFile (k : ReaderKind) (core : ReaderCore Db E Tree) (c : Codec) (encName : Str)
+def parseFile (k : ReaderKind) (core : ReaderCore Db E) (c : Codec) (encName : Str)
     (env : Env H) (content : H → Bytes) (data : Db) (file : FileArg Stream) (fileSuffix : Option Str) :
     List Event × Except (RErr E) Db :=
   let named : Except (RErr E) (FileArg Stream × Path) :=
@@ -434,7 +456,7 @@ def parseFile (k : ReaderKind) (core : ReaderCore Db E Tree) (c : Codec) (encNam
       | .ok st => (o.1, parseStream k core data st)
 
 /-- `BaseParser.parse_files(base_filenames, file_suffix=None)`. -/
-def parseFiles (k : ReaderKind) (core : ReaderCore Db E Tree) (c : Codec) (encName : Str)
+def parseFiles (k : ReaderKind) (core : ReaderCore Db E) (c : Codec) (encName : Str)
     (env : Env H) (content : H → Bytes) (fileSuffix : Option Str) :
     Db → List Path → List Event × Except (RErr E) Db
   | data, [] => ([], .ok data)
@@ -463,8 +485,8 @@ def writerKindOf (u : Bool) (ov : List Str) : Option WriterKind :=
   else none
 
 structure WriterCore (Db E : Type) where
-  /-- `.base true`: the characters `write_stream` writes -/
-  writeText : Db → Except E Str
+  /-- `.base true`: the strings `write_stream` hands to `stream.write`, in order (possibly none at all) -/
+  writeText : Db → Except E (List Str)
   /-- `.base false`: the bytes `write_stream` writes -/
   writeBytes : Db → Except E Bytes
   /-- `.bibtexml`: the characters `_write` sends through the XMLGenerator, header excluded -/
@@ -484,7 +506,7 @@ def xmlDecl (encName : Str) : Str :=
 def writeStream (k : WriterKind) (core : WriterCore Db E) (c : Codec) (encName : Str) (d : Db) :
     Except (WErr E) Stream :=
   match k with
-  | .base true => match core.writeText d with | .ok s => .ok (.text s) | .error e => .error (.core e)
+  | .base true => match core.writeText d with | .ok chunks => .ok (.text chunks.flatten) | .error e => .error (.core e)
   | .base false => match core.writeBytes d with | .ok b => .ok (.binary b) | .error e => .error (.core e)
   | .bibtexml =>                                    -- _PrettyXMLWriter(stream, self.encoding): header, then the body
     match core.xmlBody d with
@@ -528,10 +550,11 @@ inductive Written (H S : Type)
   | stream (s : S) (payload : Stream)
 deriving DecidableEq, Repr
 
-/-- What a text-mode file holds after the characters `s` were written to it: `s` encoded — except that
-the incremental encoder behind a text file emits nothing, not even the byte-order mark `"".encode()`
-yields for UTF-16, until it is handed a character. -/
-def textFile (c : Codec) (s : Str) : Bytes := if s.isEmpty then [] else c.enc s
+/-- What a text-mode file holds after the strings `chunks` were written to it, one `write` call each:
+their concatenation encoded — except that the incremental encoder behind a text file emits nothing, not
+even the byte-order mark `"".encode()` yields for UTF-16, as long as `write` is not called at all.
+(One call suffices, even with the empty string: `f.write("")` on a fresh UTF-16 text file emits the mark.) -/
+def textFile (c : Codec) (chunks : List Str) : Bytes := if chunks.isEmpty then [] else c.enc chunks.flatten
 
 /-- `BaseWriter.write_file(bib_data, filename)`.  A text-mode handle encodes what is written to it
 with the encoding it was opened with (`textFile`). -/
@@ -543,15 +566,24 @@ def writeFile (k : WriterKind) (core : WriterCore Db E) (c : Codec) (encName : S
   match o.2 with
   | .error e => (o.1, .error (.open e))
   | .ok f =>
-    match writeStream k core c encName d with
-    | .error e => (o.1, .error e)
-    | .ok payload =>
-      match f with
-      | .passthrough s => (o.1, .ok (.stream s payload))
-      | .handle h =>
-        match payload with
-        | .text s => (o.1, .ok (.file h (textFile c s)))
-        | .binary b => (o.1, .ok (.file h b))
+    match k with
+    | .base true =>
+      match core.writeText d with
+      | .error e => (o.1, .error (.core e))
+      | .ok chunks =>
+        match f with
+        | .passthrough s => (o.1, .ok (.stream s (.text chunks.flatten)))
+        | .handle h => (o.1, .ok (.file h (textFile c chunks)))
+    | _ =>
+      match writeStream k core c encName d with
+      | .error e => (o.1, .error e)
+      | .ok payload =>
+        match f with
+        | .passthrough s => (o.1, .ok (.stream s payload))
+        | .handle h =>
+          match payload with
+          | .text s => (o.1, .ok (.file h (c.enc s)))      -- unreachable: byte classes write bytes
+          | .binary b => (o.1, .ok (.file h b))
 
 /-! ## §5  pybtex/database/__init__.py: choosing the class, then calling it -/
 
